@@ -252,7 +252,7 @@ Qed.
 Definition model_version : tls_version :=
   match list_max (non_grease (match supported_versions h with Some vs => vs | None => [] end)) with
   | Some v => tls_version_from_code v
-  | None => determine_tls_version (h_version h) (non_grease (ext_types h))
+  | None => determine_tls_version (h_version h) []
   end.
 
 (* normal form of the extracted signature *)
@@ -458,16 +458,13 @@ Lemma version_eq :
   version_text (model_version h) = version_chars (version_code h)
   /\ Ja4.version_token (model_version h) = Ja4Spec.version_token (version_code h).
 Proof.
-  destruct nk_parts as (_ & KV & _). unfold model_version, version_code, known_version in *.
+  destruct nk_parts as (_ & KV & _). unfold model_version, version_code, known_version, legacy_corner in *.
   destruct (supported_versions h) as [vs|] eqn:SV.
   - replace (list_max (non_grease vs)) with (maximum (non_grease vs)) by reflexivity.
-    destruct (maximum (non_grease vs)) as [m|]; [now apply version_from_code | discriminate].
+    destruct (maximum (non_grease vs)) as [m|]; [now apply version_from_code|].
+    apply orb_false_elim in KV as [K1 K2]. now apply version_from_legacy.
   - replace (list_max (non_grease [])) with (@None N) by reflexivity.
-    apply orb_false_elim in KV as [K1 K2].
-    apply version_from_legacy; [ | exact K1 | exact K2 ].
-    rewrite existsb_non_grease by reflexivity. apply find_body_none.
-    unfold supported_versions in SV. destruct (find_body 43 (h_exts h)) as [b|] eqn:F; [|reflexivity].
-    destruct (find43_versions b F) as [vs ->]. discriminate.
+    apply orb_false_elim in KV as [K1 K2]. now apply version_from_legacy.
 Qed.
 
 Lemma sni_flag_eq :
@@ -795,12 +792,18 @@ Lemma Known_alpn_punctuation_refuted :
   exists h, wf h = true /\ known_alpn h = true
             /\ result_line (parse_tls_client_hello (encode_hello h)) <> Ja4Spec.line h.
 Proof. exists w_alpn3. split; [vm_compute; reflexivity|]. split; [vm_compute; reflexivity | refute]. Qed.
-(* K-version: supported_versions holds only GREASE, legacy TLS 1.2: code "13", specification "12" *)
+(* repaired by 53df476: supported_versions holding only GREASE falls back to the legacy version *)
 Definition w_ver1 : hello := hello_with 0x0303 [0x1301] [(43, BVersions [0x0a0a])].
-Lemma Known_version_only_grease_refuted :
+Example version_only_grease_now_conforms :
+  wf w_ver1 = true /\ known w_ver1 = false
+  /\ result_line (parse_tls_client_hello (encode_hello w_ver1)) = Ja4Spec.line w_ver1.
+Proof. repeat split; vm_compute; reflexivity. Qed.
+(* ... but the corner codes of the legacy field still apply on that path *)
+Definition w_ver1b : hello := hello_with 0x0002 [0x1301] [(43, BVersions [0x0a0a])].
+Lemma Known_version_only_grease_ssl2_refuted :
   exists h, wf h = true /\ known_version h = true
             /\ result_line (parse_tls_client_hello (encode_hello h)) <> Ja4Spec.line h.
-Proof. exists w_ver1. split; [vm_compute; reflexivity|]. split; [vm_compute; reflexivity | refute]. Qed.
+Proof. exists w_ver1b. split; [vm_compute; reflexivity|]. split; [vm_compute; reflexivity | refute]. Qed.
 (* K-version: legacy version 0x0002 (SSL 2.0): code "00", specification "s2" *)
 Definition w_ver2 : hello := hello_with 0x0002 [0x1301] [].
 Lemma Known_version_ssl2_refuted :
